@@ -266,6 +266,14 @@ class ModelRaise(Exception):
         self.stmt = stmt
 
 
+class _Break(Exception):
+    pass
+
+
+class _Continue(Exception):
+    pass
+
+
 class _Return(Exception):
     def __init__(self, value, stmt):
         Exception.__init__(self, 'return')
@@ -289,6 +297,10 @@ def run(stmts, env):
             raise _Return(ev(s.value, env) if s.value is not None else None, s)
         if isinstance(s, ast.Raise):
             raise ModelRaise(s)
+        if isinstance(s, ast.Break):
+            raise _Break()
+        if isinstance(s, ast.Continue):
+            raise _Continue()
         if isinstance(s, ast.AugAssign) and isinstance(s.target, ast.Name) and isinstance(s.op, (ast.Add, ast.Sub)):
             cur = ev(s.target, env)
             if isinstance(cur, (int, float)) and not isinstance(cur, bool):
@@ -315,7 +327,12 @@ def run(stmts, env):
         elif isinstance(s, ast.For) and not s.orelse:
             for item in list(ev(s.iter, env)):
                 _bind(s.target, item, env)
-                run(s.body, env)
+                try:
+                    run(s.body, env)
+                except _Break:
+                    break
+                except _Continue:
+                    continue
         elif isinstance(s, ast.Expr) and isinstance(s.value, ast.Call) and isinstance(s.value.func, ast.Attribute) \
                 and s.value.func.attr in ('append', 'extend', 'add', 'update', 'insert') and not s.value.keywords:
             recv = ev(s.value.func.value, env)
